@@ -372,3 +372,31 @@ def r12(ctx):
 
 
 RULES.append(("C14.R12", "T4-total", "EventClasses::any consults all three classes", r12))
+
+
+def r13(ctx):
+    """'event data is sent unsolicited only for classes the master has enabled ... and DISABLE_UNSOLICITED stops it': every call of
+    handle_enable_or_disable_unsolicited passes the literal that its function-code arm means - `true` under EnableUnsolicited, `false`
+    under DisableUnsolicited - in the unicast handler and in the broadcast sibling alike."""
+    prog = ctx.prog
+    n = 0
+    for bd in prog.bodies_matching(r"^dnp3::outstation::session::OutstationSession::"):
+        if "::tests::" in bd.path:
+            continue
+        sym = None
+        for c in call_sites(bd, r"OutstationSession::handle_enable_or_disable_unsolicited$"):
+            sym = sym or ctx.sym(bd)
+            v = const_value(prog, sym.call_expr(c.term)[2][1])
+            arms = [g for g in ctx.guards_at(bd, c.idx) if g.kind == "is" and g.name in ("EnableUnsolicited", "DisableUnsolicited") and g.edge]
+            if not arms:
+                ctx.bad("enable-literal@%s:no-arm" % short(bd.path), "handle_enable_or_disable_unsolicited called outside an Enable/DisableUnsolicited arm", bd.where(c.idx))
+                continue
+            g = min(arms, key=lambda g: len(bd.region_of_edge(g.edge)))
+            n += 1
+            want = 1 if g.name == "EnableUnsolicited" else 0
+            ctx.check(v == want, "enable-literal@%s:%s" % (short(bd.path).replace("::{closure#0}", "").split("::")[-1], g.name), "%s passes enable = %s" % (g.name, v), bd.where(c.idx), bad_detail="the %s arm calls handle_enable_or_disable_unsolicited(enable = %s): the request does the opposite of its function code" % (g.name, bool(v) if v in (0, 1) else v))
+    if n < 4:
+        raise AnchorError("enable/disable call sites: %d" % n)
+
+
+RULES.append(("C14.R13", "T8-const", "ENABLE / DISABLE_UNSOLICITED pass the literal their function code means, unicast and broadcast", r13))
